@@ -541,9 +541,10 @@ class LRTable:
                         else 0
                     )
                     +
-                    # Account for `\b` at the beginning and end of keyword regex
+                    # A keyword ranks as the string it is written as (the
+                    # recognizer is named by the keyword text)
                     (
-                        (len(symbol.recognizer._regex) - 4)
+                        len(symbol.recognizer.name)
                         if type(symbol.recognizer) is RegExRecognizer and symbol.keyword
                         else 0
                     )
